@@ -30,7 +30,9 @@ EXTRA_MODULES = [('MpVerif.C01.PropsCompose', 'MpVerif/C01/PropsCompose.lean', C
                  ('MpVerif.C01.PropsObjective', 'MpVerif/C01/PropsObjective.lean', 9),
                  ('MpVerif.C01.PropsGenTie', 'MpVerif/C01/PropsGenTie.lean', 32),
                  # round 5: the reference converter is correct (C01_convert_equiv / _objective)
-                 ('MpVerif.C01.PropsConvert', 'MpVerif/C01/PropsConvert.lean', 7),
+                 ('MpVerif.C01.PropsConvert', 'MpVerif/C01/PropsConvert.lean', 9),
+                 # round 7: created bounds/types of convert's result variables = the generated PreprocessConstraint overloads
+                 ('MpVerif.C01.PropsPreproTie', 'MpVerif/C01/PropsPreproTie.lean', 7),
                  # statement audit (round 4): non-vacuity instances only, no C01_ theorems of its own
                  ('MpVerif.C01.PropsAudit', 'MpVerif/C01/PropsAudit.lean', 0)]
 
@@ -1292,7 +1294,10 @@ def run_gadgets(ck, n_cases=None, proof=True):
         # round 4: clang-AST translation of mp::Context; PropagateResult overload table; digests of mirrored converter bodies
         for script, args in (('gen_context_ast.py', [REPO, os.path.join(LEAN, 'MpVerif', 'Gen', 'C01Context.lean'), os.path.join(BUILD, 'tr')]),
                              ('gen_propdown.py', [REPO, os.path.join(LEAN, 'MpVerif', 'Gen')]),
-                             ('gen_rangedec.py', [REPO, os.path.join(LEAN, 'MpVerif', 'Gen', 'C01Decisions.lean')])):
+                             ('gen_rangedec.py', [REPO, os.path.join(LEAN, 'MpVerif', 'Gen', 'C01Decisions.lean')]),
+                             # round 7: PreprocessConstraint overloads of constr_prepro.h as executable Lean (C06's translator; the file is shared
+                             # with the C06 check and written only when changed): tied to `resBnd` of the reference converter
+                             ('gen_c06.py', [REPO, os.path.join(LEAN, 'MpVerif', 'Gen', 'C06Prepro.lean'), os.path.join(BUILD, 'tr')])):
             rc2, o2, e2 = sh([sys.executable, os.path.join(VERIF, 'translators', script)] + args, timeout=300)
             ck.log((o2.strip() or e2.strip())[-300:])
             if rc2 != 0:
@@ -1332,7 +1337,7 @@ def run_gadgets(ck, n_cases=None, proof=True):
             failing = failing + fail2
         res['proof_ok'], res['failing'] = ok, failing
         if ck.tier == 'thorough' and ok:
-            badm = ck.leanchecker(['MpVerif.C01.Props', 'MpVerif.C01.PropsCompose', 'MpVerif.C01.PropsCtxGen', 'MpVerif.C01.PropsObjective', 'MpVerif.C01.PropsGenTie', 'MpVerif.C01.PropsConvert'])
+            badm = ck.leanchecker(['MpVerif.C01.Props', 'MpVerif.C01.PropsCompose', 'MpVerif.C01.PropsCtxGen', 'MpVerif.C01.PropsObjective', 'MpVerif.C01.PropsGenTie', 'MpVerif.C01.PropsConvert', 'MpVerif.C01.PropsPreproTie'])
             if badm:
                 res['proof_ok'] = False
                 res['failing'] += ['leanchecker rejected %s' % x for x in badm]
